@@ -17,6 +17,10 @@ ASSUME = [
 ]
 
 
+REJECTED = ["# NETQASM 0.0\n# APPID 0\nfoo Q0\n", "set R0\n", "set R0 1\njmp NOWHERE\n", "set R0 1\nset R0 1 2 3\n", "# DEFINE q Q0\nx q!\nset @0[R1:R2 1\n",
+            "array 3 @\n", "beq R0 R1\n"]
+
+
 def run(prop: str, tier: str) -> int:
     V = C.Verdicts(prop, tier)
     tmp = C.tmpdir()
@@ -35,6 +39,7 @@ def run(prop: str, tier: str) -> int:
         others = {"nv": "vanilla", "vanilla": "nv", "reids": "vanilla"}
         clash = {fl: {e["op"] for e in table[fl] if sum(1 for x in table[fl] if x["op"] == e["op"]) > 1} for fl in table}
         nontriv, evals, same_text = set(), 0, 0
+        after_rejected = 0
         step = 1 if tier == "thorough" else 1
         group, group_fl = [], None
 
@@ -76,6 +81,13 @@ def run(prop: str, tier: str) -> int:
             isa.FLAVOURS[others[fl]]()
             for flav, tag in ((keep[fl], "kept"), (isa.FLAVOURS[fl](), "fresh")):
                 bad = False
+                if k % 5 == 0:
+                    # the parser is handed a text it has to reject first: what it makes of the next text may not depend on that
+                    try:
+                        parse_text_subroutine(REJECTED[(k // 5) % len(REJECTED)], flavour=flav)
+                    except Exception:
+                        pass
+                    after_rejected += 1
                 for src, what in ((printed, "printed-text"), (v["text"], "canonical-text")):
                     try:
                         got = parse_text_subroutine(src, flavour=flav).instructions
@@ -103,7 +115,7 @@ def run(prop: str, tier: str) -> int:
             "traces_validated_against_impl": evals, "evaluations": evals, "distinct_nontrivial": len(nontriv),
             "rule": "vector = (flavour, class, operand valuation), field-wise domains incl. negative integers, entries, slices; each printed by the real printer and parsed by the real parser with a long-lived and a fresh flavour object; groups of 16 as whole subroutines through text->binary->text",
             "samples": [vecs[0], vecs[len(vecs) // 2], vecs[-1]],
-            "real_text_equals_canonical_text": same_text, "printed_again_after_in_place_rewrite": mutated,
+            "real_text_equals_canonical_text": same_text, "printed_again_after_in_place_rewrite": mutated, "parsed_right_after_a_rejected_text": after_rejected,
             "tlc_action_coverage": r.coverage, "exhaustive": False, "checker_cmd": r.cmd,
         }
         return V.finish("model_checking", cov, ASSUME)
